@@ -5,3 +5,4 @@ pub mod props;
 pub mod raster4;
 pub mod runner;
 pub mod scene;
+pub mod tree;
